@@ -7,6 +7,7 @@ import (
 	"fmt"
 	"math/rand"
 	"runtime/debug"
+	"runtime/metrics"
 	"strconv"
 	"strings"
 	"time"
@@ -118,8 +119,23 @@ func NewYielder() *Yielder { return &Yielder{stoppedAt: -1} }
 // Stopped reports whether this yielder raised the flag.
 func (y *Yielder) Stopped() bool { return y.stoppedAt >= 0 }
 
+var heapSample = []metrics.Sample{{Name: "/memory/classes/heap/objects:bytes"}}
+
+// heapTooLarge reports whether the live heap exceeds the harness's budget. A
+// generated or mutated program may legitimately build huge values (s = s + s
+// in a loop); the run is then abandoned like one that runs out of fuel.
+func heapTooLarge() bool {
+	metrics.Read(heapSample)
+	return heapSample[0].Value.Kind() == metrics.KindUint64 && heapSample[0].Value.Uint64() > 1<<30
+}
+
 func (y *Yielder) Yield() {
 	y.Count++
+	if y.Count%8 == 0 && y.stoppedAt < 0 && y.Fuel > 0 && heapTooLarge() {
+		y.stoppedAt = y.Count
+		y.FuelOut = true
+		y.Ev.Stopped = true
+	}
 	if y.stoppedAt >= 0 {
 		y.YieldsAfterStop++
 		if y.AbortAfter > 0 && y.YieldsAfterStop+y.EffectsAfterStop > y.AbortAfter {
